@@ -286,21 +286,22 @@ func (torrent *Torrent) MetadataComplete() error {
 	if int64(len(hashes)) != pieces {
 		return errors.New("wrong number of piece hashes")
 	}
-	torrent.inFlight = make([]uint8, chunks)
-
-	torrent.PieceHashes = hashes
-	// torrent.Name may have been populated earlier
+	name := info.Name
 	if info.Name8 != "" {
-		torrent.Name = info.Name8
-	} else {
-		torrent.Name = info.Name
+		name = info.Name8
 	}
-	if torrent.Name == "" {
+	if name == "" {
 		return errors.New("torrent has no name")
 	}
-	if !validComponent(torrent.Name) {
+	if !validComponent(name) {
 		return errors.New("bad torrent name")
 	}
+
+	// everything has been checked: a rejected dictionary leaves no trace
+	torrent.inFlight = make([]uint8, chunks)
+	torrent.PieceHashes = hashes
+	// torrent.Name may have been populated earlier
+	torrent.Name = name
 	torrent.Pieces.MetadataComplete(info.PieceLength, length)
 	torrent.Files = files
 
